@@ -114,6 +114,9 @@ func wlTreeCaseFor(tier string, seed uint64, i int) (WLCase, explore.Limits) {
 		if hasEmpty(kept) {
 			continue
 		}
+		if i%9 == 4 { // a scheme that is none of the constants (C04 has no reference for these; C05 and C06 judge them)
+			w.Scheme = oddSchemes[r.Intn(len(oddSchemes))]
+		}
 		w.UserEnt = 0                  // the harness's own separator functions are deterministic: they must declare 0 bits
 		if i%6 == 3 && w.Length >= 2 { // a failing separator: requirement + a single attempt
 			w.SepKind = "constructed"
@@ -389,14 +392,56 @@ func wlReference(w WLCase, b *Built) (map[string]*big.Rat, bool) {
 // and user-separator state are reset before every execution.
 func exploreWL(w WLCase, b *Built, lim explore.Limits, onLeaf func(GenOut, *tape.Tape, []string)) *explore.Result {
 	lim.Hostile = true
-	return explore.Run(lim, func(t *tape.Tape) explore.Outcome {
-		b2 := b.fresh(w)
-		out := runGen(*b2.Rec, t)
-		if !t.Cut && !t.Aux && onLeaf != nil {
-			onLeaf(out, t, b2.Log.Returns)
+	runWith := func(l explore.Limits) *explore.Result {
+		return explore.Run(l, func(t *tape.Tape) explore.Outcome {
+			b2 := b.fresh(w)
+			out := runGen(*b2.Rec, t)
+			if !t.Cut && !t.Aux && onLeaf != nil {
+				onLeaf(out, t, b2.Log.Returns)
+			}
+			return explore.Outcome{Key: outcomeKey(out)}
+		})
+	}
+	// Iterative deepening. An honest generation of the sizes explored here makes the same dozen or two draws on
+	// every path (d0, read off one probe run), so a first pass cut a little above d0 resolves the whole tree and
+	// is all that is run. A generation that may start over (a separator recipe retrying, or a changed library
+	// that regenerates) has paths of every length: each deeper pass resolves more of them, and the passes stop
+	// as soon as a deeper one leaves no less unresolved than the one before - which is what happens when the
+	// leaf budget is spent inside the first endless subtree (20000 paths of 400 draws turned a half-minute
+	// check into an hour before this). Every pass is a sound description: masses are lower bounds, Unresolved
+	// is exact, and every judgement allows for it; the one with the least unresolved mass is returned.
+	pr := gen.New(gen.Hash64(w.String()), "probe")
+	ps := make([]uint32, 64)
+	for i := range ps {
+		ps[i] = pr.U32()
+	}
+	probe := &tape.Tape{Script: ps, AutoExtend: true, MaxDraws: 64}
+	runGen(*b.fresh(w).Rec, probe)
+	d0 := len(probe.Path)
+	var depths []int
+	for _, d := range []int{d0 + 4, 2*d0 + 8, 48} {
+		if (lim.MaxDraws == 0 || d < lim.MaxDraws) && (len(depths) == 0 || d > depths[len(depths)-1]) {
+			depths = append(depths, d)
 		}
-		return explore.Outcome{Key: outcomeKey(out)}
-	})
+	}
+	depths = append(depths, lim.MaxDraws)
+	var best *explore.Result
+	for _, d := range depths {
+		l := lim
+		l.MaxDraws = d
+		if l.MaxLeaves > 0 {
+			l.MaxWork = int64(l.MaxLeaves) * 60
+		}
+		r := runWith(l)
+		if r.Complete || len(r.Anomalies) > 0 || r.Unresolved.Cmp(big.NewRat(1, 1000000)) < 0 {
+			return r
+		}
+		if best != nil && r.Unresolved.Cmp(best.Unresolved) >= 0 {
+			return best
+		}
+		best = r
+	}
+	return best
 }
 
 // fresh returns a copy of the built recipe sharing the same WordList but with a
